@@ -259,6 +259,41 @@ Definition case_ok8 (b : bytes) : bool :=
   | None => false
   end.
 
+(* ---- cases with outstanding requests (C07 harness) ----
+   case_p := case  npend (id name live prog)^n  ndiv (taken id k(u16) rres^k)^n
+   The waiters' programs only read; [ndiv] lists the elements the session offered
+   to a waiter, in order (for one not taken only that flag is observed). *)
+Definition ppe : P pentry :=
+  id <- pstr ;; n <- pname ;; live <- pbool ;; pr <- pprog ;; pret (mkpe id n live (compile pr)).
+
+Record odiv := mkodiv { od_taken : bool; od_id : bytes; od_seen : list rres }.
+
+Definition podiv : P odiv :=
+  t <- pbool ;; id <- pstr ;; k <- pu16 ;; rs <- prep k prres ;; pret (mkodiv t id rs).
+
+Definition pcase_p : P (scase * ptable * list odiv) :=
+  c <- pcase ;; np <- pbyte ;; pe <- prep np ppe ;; nd <- pbyte ;; ds <- prep nd podiv ;; pret (c, pe, ds).
+
+Definition parse_case_p (b : bytes) : option (scase * ptable * list odiv) :=
+  match pcase_p b with
+  | Some (x, []) => Some x
+  | _ => None
+  end.
+
+Definition div_match (m : dinv) (o : odiv) : bool :=
+  Bool.eqb (d_taken m) (od_taken o) &&
+  (if od_taken o then bytes_eqb (d_id m) (od_id o) && list_eqb rres_match (d_seen m) (od_seen o) else true).
+
+Definition outcome_ok_p (c : scase) (divs : list odiv) (r : sres_p) : bool :=
+  oerr_match (sp_ret r) (o_ret c)
+  && o_closed c
+  && list_eqb inv_match (invs_of (sp_events r)) (o_invs c)
+  && list_eqb div_match (divs_of (sp_events r)) divs
+  && list_eqb token_match (wire_of (c_ns (k_cfg c)) (k_from c) (written_p r)) (o_wire c).
+
+(* in a harness run nobody else touches the table while Serve runs *)
+Definition env_id (k : nat) (tb : ptable) : ptable := tb.
+
 (* ---- function-level tie of the stream reader alone (VerifStreamReader) ----
    case := ws toks k(u16) rres^k : the reader is called until its first error *)
 Fixpoint p_run (ws : bool) (fuel : nat) (p : pst) : list rres :=
